@@ -193,6 +193,17 @@ def make_cases(tier, seed):
     for lit, val in (("0.5", 0.5), ("1_000.25", 1000.25), ("2.5e3", 2500.0), ("2.5E-3", 0.0025), ("16777217.0", 16777217.0), ("0.1", 0.1), ("123456789.125", 123456789.125)):
         add("f64", f"$N : f64 = {lit}; vr_bytes($ID, ^$N, 8);", True, struct.pack("<d", val).hex(), f"{lit} as f64", ("f64_form", lit))
         add("f32", f"$N : f32 = {lit}; vr_bytes($ID, ^$N, 4);", True, struct.pack("<f", val).hex(), f"{lit} as f32", ("f32_form", lit))
+    # F. integer literals written where a float is expected: the value they spell, rounded to the nearest float
+    #    (whether such a use is accepted is not constrained by the statement - capy rejects big ones in globals -, an accepted one must keep its value)
+    from .c08 import int_to_float
+    for v in (0, 1, 7, 2 ** 24 - 1, 2 ** 24 + 1, 2 ** 31, 2 ** 32 + 5, 2 ** 53 + 1, 2 ** 62, 2 ** 63 - 1, 2 ** 63, 2 ** 63 + 2049, 2 ** 64 - 1):
+        for fty, fw, size, fmt in (("f32", 32, 4, "<f"), ("f64", 64, 8, "<d")):
+            exp = struct.pack(fmt, int_to_float(v, fw)).hex()
+            bucket = v.bit_length()
+            add("int_as_float", f"$N : {fty} = {v}; vr_bytes($ID, ^$N, {size});", None, exp, f"{v} as {fty} (annotated local)", ("int_as_float", "local", fty, bucket))
+            add("int_as_float", f"$N := {fty}.({v}); vr_bytes($ID, ^$N, {size});", None, exp, f"{fty}.({v}) (cast of the literal)", ("int_as_float", "cast", fty, bucket))
+            add("int_as_float", f"$Nl := $N; vr_bytes($ID, ^$Nl, {size});", None, exp, f"{v} as {fty} (annotated global)", ("int_as_float", "global", fty, bucket), helpers=(f"$N : {fty} : {v};",))
+            add("int_as_float", f"$Na := {fty}.[{v}]; $Ne := $Na[0]; vr_bytes($ID, ^$Ne, {size});", None, exp, f"{v} as {fty} (array element)", ("int_as_float", "array_elem", fty, bucket))
     return cases
 
 
